@@ -15,7 +15,8 @@ def main():
     assert r.returncode == 0, r.stdout
     out = {"id": sid, "breaks": [prop], "kind": "independent sub-agent change written from the property text alone"}
     try:
-        demo = open(os.path.join(src, "demo_test.go")).read()
+        demofile = [f for f in sorted(os.listdir(src)) if f.endswith("_test.go")][0]
+        demo = open(os.path.join(src, demofile)).read()
         pkg = re.search(r"^package (\w+)", demo, re.M).group(1)
         pkgdir = {"match": "match", "core": "core", "sio": "sio", "main": "cmd/mcrew", "tools": "tools", "expect": "tools/expect",
                   "ecmascript": "interpreters/ecmascript"}[pkg]
@@ -27,7 +28,7 @@ def main():
         out["builds"] = r.returncode == 0
         r = sh(["go", "test", "-vet=off", "-count=1", "./..."], cwd=wt)
         out["suite_passes_with_change"] = r.returncode == 0
-        shutil.copy(os.path.join(src, "demo_test.go"), os.path.join(wt, pkgdir, "zz_demo_test.go"))
+        shutil.copy(os.path.join(src, demofile), os.path.join(wt, pkgdir, "zz_demo_test.go"))
         r = sh(["go", "test", "-vet=off", "-count=1", "-run", run, "./" + pkgdir + "/"], cwd=wt)
         out["demo_fails_with_change"] = r.returncode != 0
         out["demo_output_with_change"] = r.stdout[-600:]
@@ -47,8 +48,8 @@ def main():
     if ok:
         d = os.path.join(os.path.dirname(os.path.abspath(__file__)), "seeded", sid)
         os.makedirs(d, exist_ok=True)
-        for f in ("patch.diff", "demo_test.go", "README.md"):
-            shutil.copy(os.path.join(src, f), os.path.join(d, f))
+        for f, t in (("patch.diff", "patch.diff"), (demofile, "demo_test.go"), ("README.md", "README.md")):
+            shutil.copy(os.path.join(src, f), os.path.join(d, t))
         readme = open(os.path.join(src, "README.md")).read()
         out["needs"] = " ".join(readme.split())[:600]
         json.dump(out, open(os.path.join(d, "meta.json"), "w"), indent=1)
